@@ -2,6 +2,7 @@
 
 #define FILENAME(line) FILENAME_FOR_EXCEPTIONS("src/libawkward/forth/ForthMachine.cpp", line)
 
+#include <limits>
 #include <sstream>
 #include <stdexcept>
 #include <chrono>
@@ -2688,6 +2689,12 @@ namespace awkward {
               return;
             }
             num_items = stack_pop();
+            if (num_items > (std::numeric_limits<int64_t>::max() >> 4)) {
+              // no input can hold that many items, and the number of bytes
+              // (num_items * item size) would overflow below
+              current_error_ = util::ForthError::read_beyond;
+              return;
+            }
           }
 
           I format = ~bytecode & READ_MASK;
@@ -2790,7 +2797,8 @@ namespace awkward {
               output = current_outputs_[(IndexTypeOf<int64_t>)out_num].get();
             }
 
-            uint64_t mask = (1 << bit_width) - 1;
+            uint64_t mask = (bit_width >= 64 ? ~(uint64_t)0
+                                             : (((uint64_t)1 << bit_width) - 1));
             uint64_t bits_wnd_l = 8;
             uint64_t bits_wnd_r = 0;
             int64_t items_remaining = num_items;
